@@ -5,6 +5,7 @@ import re
 from mc.core import UnitResult
 
 ID = "C17"
+PARTS = ['fmt', 'pct']      # outcome classes every run must produce (guards against a part of the exploration silently not running)
 RULE = ("state = (template, argument): %-templates built from the complete conversion grammar (mapping key, flags, width, precision, length, conversion "
         "character incl. invalid ones) for str and bytes x literal scalars/tuples/dicts; str.format templates (auto/numbered/named fields, attribute and index "
         "paths, conversions, nested specs, escapes, stray braces) x positional/keyword argument lists; oracle: CPython formats or raises")
